@@ -76,6 +76,7 @@ inductive Cmd where
   | resume (p : Pid) (sig : Int) | interrupt (p : Pid) (sig pri : Int) | stop (p : Pid) (val : Int)
   | start (p : Pid) | exit (val : Int) | prioSet (p : Pid) (v : Int)
   | waitProc (p : Pid) | schedUser (v : Nat) (d pri : Int) | cancelUser (v : Nat) | waitEvent (v : Nat)
+  | cancelUserAll
   | acquire (r : Nat) | preempt (r : Nat) | release (r : Nat)
   | poolAcquire (p n : Nat) | poolPreempt (p n : Nat) | poolRelease (p n : Nat)
   | bufGet (b n : Nat) | bufPut (b n : Nat)
@@ -248,6 +249,18 @@ def cancelAllFor (w : World) (p : Pid) : World :=
 def cancelKindFor (w : World) (p : Pid) (act : Nat) (sig : Option Int) : World × Nat :=
   let hs := (w.ev.pending.filter fun e => e.item.b = p + 1 && e.item.a = act &&
       (match sig with | some s => e.item.c = encSig s | none => true)).map (·.key)
+  (hs.foldl (fun w h => (evCancel w h).1) w, hs.length)
+
+/-- handles of the pending user events (action `aUser`), in queue list order -/
+def userPending (w : World) : List Nat :=
+  (w.ev.pending.filter fun e => e.item.a = aUser).map (·.key)
+
+/-- `cmb_event_pattern_cancel(user_action, ANY, ANY)`: every match is cancelled through `cmb_event_cancel`,
+    so the waiters of each cancelled event are woken with CANCELLED; returns the number of matches.
+    The library cancels in heap-array order, which the abstract queue does not have (here: list order, as in
+    `cancelAllFor`); the order only decides which waiter gets which of the new handles (notes/S5.md) -/
+def cancelUserAll (w : World) : World × Nat :=
+  let hs := userPending w
   (hs.foldl (fun w h => (evCancel w h).1) w, hs.length)
 
 /-! ### recording -/
